@@ -370,6 +370,9 @@ impl Property for HistProp {
                             }
                             if let CoreRes::Core(core) = core {
                                 last_was_core = true;
+                                if crate::props::opt::has_negation_pair(preds) {
+                                    fail!("wrong:contradictory-pair-not-reported", "the assumptions {:?} contain a predicate and its negation, but a core {:?} was returned", preds, core);
+                                }
                                 if let Some(s) = sols.iter().find(|s| core.iter().all(|p| p.holds(s[p.var] as i64))) {
                                     fail!("wrong:core-not-inconsistent", "solution {:?} satisfies the core {:?}", s, core);
                                 }
